@@ -79,7 +79,7 @@ theorem C05_point_monotone (cfg : Cfg) (now : Int) (coll : Option Offer) (s : St
       rw [collectedIsNewer_consistent hc] at hnew
       simp only [Bool.and_eq_true, decide_eq_true_eq] at hnew
       right
-      refine ⟨⟨mf, vm.mft.number, vm.mft.thisUpdate, ca.info.repo, crl, objs⟩,
+      refine ⟨⟨mf, vm.mft.number, vm.mft.thisUpdate, vm.mft.ee.notAfter, ca.info.repo, crl, objs⟩,
         by simp only [r, processPointWith, heq], ?_, hnew.1, hnew.2⟩
       exact ⟨vm.mft, validateCollected_mft hv, rfl, rfl⟩
     | useStored st' =>
